@@ -305,6 +305,25 @@ func (x *Exec) step(st *State, fr *Frame, in ssa.Instruction) bool {
 	case *ssa.Lookup:
 		m := x.eval(st, fr, in.X)
 		k := x.eval(st, fr, in.Index)
+		if u, ok := in.X.(*ssa.UnOp); ok && x.cfg.GlobalMap != nil {
+			if g, ok := u.X.(*ssa.Global); ok {
+				if v := x.cfg.GlobalMap(g, k); v != nil {
+					if in.CommaOk {
+						fr.env[in] = Tuple{E: []AV{v, Konst{V: constant.MakeBool(true), T: types.Typ[types.Bool]}}}
+					} else {
+						fr.env[in] = v
+					}
+					return x.next(fr)
+				}
+				if _, isK := k.(Konst); isK && in.CommaOk {
+					if mt, ok := in.X.Type().Underlying().(*types.Map); ok && x.cfg.GlobalMap(g, nil) != nil {
+						// constant key absent from a constant table
+						fr.env[in] = Tuple{E: []AV{zeroValue(mt.Elem()), Konst{V: constant.MakeBool(false), T: types.Typ[types.Bool]}}}
+						return x.next(fr)
+					}
+				}
+			}
+		}
 		st.events = append(st.events, Event{Kind: "lookup", Instr: in, Fn: fr.fn, Depth: len(st.frames) - 1, Map: m, Key: k, Loops: st.loops})
 		base := fmt.Sprintf("lookup(%s,%s)#%d", m.avKey(), k.avKey(), st.mem.epoch[rootOf(m)])
 		if in.CommaOk {
